@@ -691,4 +691,78 @@ theorem propagate_link (v : Nat) (o : Op) (t : Slots) (st st' : List Bool) (x : 
       exact h1
     · cases ha
 
+theorem propagate_append : ∀ (pre s : Slots) (st : List Bool),
+    propagate st (pre ++ s) = (propagate st pre).bind (fun st1 => propagate st1 s)
+  | [], s, st => by simp [propagate]
+  | none :: t, s, st => by simp only [List.cons_append, propagate]; exact propagate_append t s st
+  | some o :: t, s, st => by
+    simp only [List.cons_append, propagate]
+    cases applyOp st o with
+    | none => simp
+    | some st1 => exact propagate_append t s st1
+
+theorem maskSlots_shape {fr : SkOp → Bool} : ∀ {sb sa : Slots}, PairAll (OpOk fr) sb sa →
+    ∀ m ∈ opsOf (maskSlots sb sa), m.ins.length = m.vars.length ∧ m.outs.length = m.vars.length
+  | [], [], _ => by intro m hm; simp [maskSlots, opsOf] at hm
+  | [], _ :: _, h' => by simp [PairAll] at h'
+  | none :: _, [], h' => by simp [PairAll] at h'
+  | some _ :: _, [], h' => by simp [PairAll] at h'
+  | none :: tb, none :: ta, h' => by
+    simp only [PairAll] at h'
+    intro m hm
+    exact maskSlots_shape h' m (by simpa [maskSlots, opsOf] using hm)
+  | none :: tb, some _ :: ta, h' => by simp [PairAll] at h'
+  | some _ :: tb, none :: ta, h' => by simp [PairAll] at h'
+  | some ob :: tb, some oa :: ta, h' => by
+    simp only [PairAll] at h'
+    intro m hm
+    simp only [maskSlots, opsOf, List.mem_cons] at hm
+    rcases hm with rfl | hm
+    · simp only [maskOp, xorB_length, h'.1.insB, h'.1.insA, h'.1.outsB, h'.1.outsA, Nat.min_self,
+        and_self]
+    · exact maskSlots_shape h'.2 m hm
+
+theorem mem_opsOf_of_split : ∀ (pre t : Slots) (m : Op), m ∈ opsOf (pre ++ some m :: t)
+  | [], t, m => by simp [opsOf]
+  | none :: p, t, m => by simp only [List.cons_append, opsOf]; exact mem_opsOf_of_split p t m
+  | some o :: p, t, m => by
+    simp only [List.cons_append, opsOf]; exact List.mem_cons_of_mem _ (mem_opsOf_of_split p t m)
+
+/-- Leg-by-leg reading of `linkClosed`. `D` (the mask) takes the same value on the output leg of an
+op and on the input leg of the next op on that variable — the next op being searched in the rest of
+the string and then, through the time boundary, from the start of the string again. -/
+theorem ClusterMove.link {fr : SkOp → Bool} {b a : Config} (h : ClusterMove fr b a)
+    (pre t : Slots) (m : Op) (hm : maskSlots b.slots a.slots = pre ++ some m :: t)
+    (hn : m.vars.Nodup) (v : Nat) (hv : v ∈ m.vars) (x : Bool)
+    (hx : firstIn v (t ++ maskSlots b.slots a.slots) = some x) : m.legOut v = some x := by
+  have hc := h.linkClosed
+  unfold Consistent at hc
+  simp only [mask] at hc
+  -- run the string twice
+  have h2 : propagate (xorB b.state a.state) (maskSlots b.slots a.slots ++ maskSlots b.slots a.slots) =
+      some (xorB b.state a.state) := by
+    rw [propagate_append, hc]; exact hc
+  have hsplit : maskSlots b.slots a.slots ++ maskSlots b.slots a.slots =
+      pre ++ (some m :: (t ++ maskSlots b.slots a.slots)) := by
+    conv => lhs; arg 1; rw [hm]
+    simp
+  rw [hsplit, propagate_append] at h2
+  cases hp : propagate (xorB b.state a.state) pre with
+  | none => rw [hp] at h2; cases h2
+  | some st1 =>
+    rw [hp] at h2
+    simp only [Option.bind_some] at h2
+    have hsh := maskSlots_shape h.ops m (by rw [hm]; exact mem_opsOf_of_split pre t m)
+    exact propagate_link v m _ st1 _ x hn hsh.1 hsh.2 h2 hv hx
+
+/-- the state at p = 0 is flipped exactly when the first input leg on the variable (the link
+crossing the time boundary) is flipped -/
+theorem ClusterMove.boundary_state {fr : SkOp → Bool} {b a : Config} (h : ClusterMove fr b a)
+    (v : Nat) (x : Bool) (hx : firstIn v (maskSlots b.slots a.slots) = some x) :
+    (xorB b.state a.state)[v]? = some x := by
+  have hc := h.linkClosed
+  unfold Consistent at hc
+  simp only [mask] at hc
+  exact propagate_firstIn v _ _ _ x hc hx
+
 end Qmc
